@@ -56,11 +56,14 @@ impl<'a> PrettyPrinter<'a> {
         &'a self,
         ctx: Context,
         parenthesized: Parenthesized<'a>,
+        embedded: bool,
     ) -> ArenaDoc<'a> {
         // NOTE: This is a safe cast. The parentheses for patterns are all optional.
         // For safety, we don't remove parentheses around idents. See `paren-in-key.typ`.
+        // Directly after a hash in markup or math a literal keeps them too: `#(2)e3` is not `#2e3`
+        // and `#(none)x` is not `#nonex` (a string literal is closed by its quote).
         let expr = parenthesized.expr();
-        let can_omit = (expr.is_literal()
+        let can_omit = (expr.is_literal() && !(embedded && !matches!(expr, Expr::Str(_)))
             || matches!(
                 expr.to_untyped().kind(),
                 SyntaxKind::Array
